@@ -27,6 +27,18 @@ def run(tier, rng, C):
     n = 4000 if tier == 'quick' else 120000
     for _ in range(n):
         stacks.append(over_stack(rng))
+    for _ in range(300 if tier == 'quick' else 8000):
+        # `tmpl` is built from 1-3 layers that override member b; `target` has an earlier b of another
+        # kind and receives tmpl through a reference layer (the override must still replace)
+        kinds = list(MC.KINDS)
+        nl = rng.randint(1, 3)
+        first = [(S('target'), M(('b', MC.KINDS[rng.choice(kinds)]()), ('o', I(0))))]
+        layers = []
+        for j in range(nl):
+            es = [(S('tmpl'), M((rng.choice(['~b', '~b', 'b']), MC.KINDS[rng.choice(kinds)]())))]
+            layers.append(('m', (first if j == 0 else []) + es))
+        layers.append(M(('target', S('${tmpl}'))))
+        stacks.append(layers)
     stacks += MC.nested_sequences(rng, 1500 if tier == 'quick' else 40000, markers=('', '', '~', '~'))
     cases = MC.build_cases(C, stacks)
     for c in cases:
